@@ -32,7 +32,7 @@ CHECKS = {
              "variant / unusable result shape, NEED_REPLY, REPLY_ACK) run on a fresh frontend<->server connection; "
              "distinct by (operation, outcome shape, configuration, argument bytes); non-trivial = the call was "
              "executed and its return compared with the script or a blocked-reader certificate was taken",
-        units=[U("outcomes", "hv", "c03", shards=(8, 16))],
+        units=[U("outcomes", "hv", "c03", shards=(8, 16)), U("daemon-adapters", "hd", "c03", shards=(1, 4))],
     ),
     "C08": dict(
         level="fault_enumeration",
